@@ -1034,6 +1034,60 @@ fn compound_grid(report: &mut Report) -> u64 {
     n
 }
 
+/// Which cell an assignment writes when its target is an expression: the cell the target denotes
+/// when the assignment is reached (the target is evaluated, then the value, then the cell found
+/// first is updated from its content at that moment) - also when evaluating the value changes what
+/// the target expression would denote afterwards (an index, a cell holding the cell, a selector
+/// function, a tuple / struct in a cell, a condition). Every target form x every assignment
+/// operator, two cells a = 6 and b = 20, value 2 through a function that re-points the target.
+fn target_expression_grid(report: &mut Report) -> (u64, u64) {
+    const FORMS: &[(&str, &str, &str)] = &[
+        ("index moved by the value", "arr := [a, b]; i := mut 0; v := () -> int { i += 1; return 2 };", "arr[*i]"),
+        ("cell holding the cell, re-pointed by the value", "p := mut a; v := () -> int { p = b; return 2 };", "*p"),
+        ("selector function", "n := mut 0; cells := [a, b]; pick := () -> mut int { return cells[*n] }; v := () -> int { n += 1; return 2 };", "pick()"),
+        ("tuple in a cell, replaced by the value", "tc := mut (a, b); v := () -> int { tc = (b, a); return 2 };", "(*tc).0"),
+        ("struct in a cell, replaced by the value", "sc := mut struct{ f := a }; v := () -> int { sc = struct{ f := b }; return 2 };", "(*sc).f"),
+        ("condition flipped by the value", "flag := mut true; v := () -> int { flag = false; return 2 };", "(if *flag { a } else { b })"),
+        ("match scrutinee moved by the value", "n := mut 0; v := () -> int { n += 1; return 2 };", "(match *n { 0 => a, => b, })"),
+        ("array in a cell, replaced by the value", "ac := mut [a, b]; v := () -> int { ac = [b, a]; return 2 };", "(*ac)[0]"),
+        ("plain name, re-declared by nothing (control)", "v := () -> int { b += 0; return 2 };", "a"),
+    ];
+    const OPS: &[(&str, i64)] = &[("=", 2), ("+=", 8), ("-=", 4), ("*=", 12), ("/=", 3), ("%=", 0), ("**=", 36), ("<<=", 24), (">>=", 1), ("&=", 2), ("|=", 6), ("^=", 4)];
+    let mut n = 0u64;
+    let mut accepted = 0u64;
+    for (fname, pre, target) in FORMS {
+        let mut form_accepted = 0;
+        for (op, want_a) in OPS {
+            for (wname, wrap) in [("statement", "r := TARGET OP v(); (r, *a, *b)"), ("in a function", "h := () -> int { return TARGET OP v() }; r := h(); (r, *a, *b)"), ("value is the program's", "x := (TARGET OP v()); (x, *a, *b)")] {
+                let text = format!("a := mut 6; b := mut 20; {pre} {}", wrap.replace("TARGET", target).replace("OP", op));
+                n += 1;
+                let o = core::run_text(&text, true, core::QUICK_FUEL);
+                let got = match &o {
+                    core::Outcome::Value(v) => canon(v),
+                    core::Outcome::Rejected(..) => continue,
+                    other => other.tag(),
+                };
+                accepted += 1;
+                form_accepted += 1;
+                let want = format!("({want_a}, {want_a}, 20)");
+                if got != want {
+                    report.violation(Violation {
+                        sig: format!("C13|assignment-writes-another-cell|{fname}|{op}|{wname}"),
+                        detail: json!({"kind": "program", "stdlib": true, "text": text, "expected": want, "observed": got}),
+                    });
+                }
+            }
+        }
+        if form_accepted == 0 && !fname.contains("condition") && !fname.contains("match") {
+            report.violation(Violation {
+                sig: format!("C13|assignment-writes-another-cell|form-never-accepted|{fname}"),
+                detail: json!({"kind": "program", "stdlib": true, "text": format!("a := mut 6; b := mut 20; {pre} {target} += v()")}),
+            });
+        }
+    }
+    (n, accepted)
+}
+
 pub fn run(tier: &str) -> i32 {
     let thorough = tier == "thorough";
     let mut report = Report::new("C13", tier);
@@ -1075,9 +1129,12 @@ pub fn run(tier: &str) -> i32 {
     let n_closure_cells = core::on_big_stack(|| closure_made_cells(&mut report));
     let n_store = core::on_big_stack(|| store_grid(&mut report));
     let n_compound = core::on_big_stack(|| compound_grid(&mut report));
+    let target_forms = core::on_big_stack(|| target_expression_grid(&mut report));
     let transitions = shared.transitions.load(Ordering::Relaxed);
     let outcomes = shared.outcomes.lock().unwrap().len();
     let coverage = json!({
+        "assignment_target_expression_programs (9 target forms x 12 operators x 3 positions; the value re-points the target)": target_forms.0,
+        "assignment_target_expression_programs_accepted": target_forms.1,
         "states": unique,
         "states_generated_incl_repeats": generated,
         "transitions": transitions,
